@@ -190,6 +190,23 @@ def run_case(c):
         obs["n_d2f"] = 1
         if np.abs(f2 - fc).max() > 1e-9 * np.abs(fc).max():
             bad("d2f", "run_d2f with unmodified eigen-solutions differs from the original force constants by %.3e" % np.abs(f2 - fc).max(), **feat)
+        # ... and they stay what they are while the object goes on working (the caller keeps the array it was handed; later requests - the
+        # correlation matrices, another run_d2f - must not write into it, nor change what the object reports as its rebuilt constants)
+        held = rd.force_constants
+        if not (dist == "classical" and T == 0):
+            rd.run_correlation_matrix(T)
+            uu2 = np.array(rd.uu).transpose(0, 2, 1, 3).reshape(3 * ns, 3 * ns)
+            obs["n_d2f_then_other_requests"] = 1
+            if np.abs(np.array(held) - f2).max() > 0 or np.abs(np.array(rd.force_constants) - f2).max() > 1e-12 * np.abs(fc).max():
+                bad("d2f_result_overwritten", "the force constants rebuilt by run_d2f changed by %.3e (array held by the caller) / %.3e (as reported by the object) when the correlation "
+                    "matrix was requested afterwards" % (np.abs(np.array(held) - f2).max(), np.abs(np.array(rd.force_constants) - f2).max()), **feat)
+            if np.abs(uu2 - Cwant).max() > 1e-9 * scale:
+                bad("uu", "correlation matrix requested after run_d2f differs from the canonical covariance by %.3e (scale %.3e)" % (np.abs(uu2 - Cwant).max(), scale), after_d2f=True, **feat)
+        rd.run_d2f()
+        if np.abs(np.array(held) - f2).max() > 0 and held is not rd.force_constants:
+            bad("d2f_result_overwritten", "a second run_d2f wrote into the array the first one had handed out (changed by %.3e)" % np.abs(np.array(held) - f2).max(), **feat)
+        if np.abs(np.array(rd.force_constants) - fc).max() > 1e-9 * np.abs(fc).max():
+            bad("d2f", "second run_d2f differs from the original force constants by %.3e" % np.abs(np.array(rd.force_constants) - fc).max(), second=True, **feat)
         key = "rd|%s|%s|%s|%s|%s|%s" % (c["crystal"]["name"], c["smat"], c["pmat"], dist, T, c["cutoff"])
         return {"viol": viol, "nontrivial": bool(ns >= 2 and n_included >= 4), "key": key, "obs": obs, "evals": A.shape[1],
                 "sample": {"kind": "random", "crystal": c["crystal"], "smat": c["smat"], "pmat": pm, "dist": dist, "T": T, "cutoff": c["cutoff"], "n_ii": nii, "n_ij": nij,
